@@ -38,7 +38,11 @@ def jobs_for(tier, rng):
             e = max(range(ne), key=lambda x: m["pk"][s][a][x])
             m["pk"][s][a][e] -= 1
         gen.fix_dups(m)
-        jobs.append({"mdp": m, "tol": tol})
+        job = {"mdp": m, "tol": tol}
+        if k % 3 == 0:
+            # the same instance was asked before with other tolerances (more lenient first, stricter ones too)
+            job["pre_tols"] = rng.choice([[[1, 2]], [[1, 4], [0, 1]], [[1, 1]], [[0, 1], [1, 2]]])
+        jobs.append(job)
     # tolerances and deviations that differ by less than 1e-12 (fine units of 2^-41 on top of coarse dyadic numbers):
     # "more than the tolerance" is a strict comparison at every scale.  Coarse parts tie (rows exact with tolerance 0,
     # or off by exactly the coarse tolerance), the fine parts decide.
